@@ -38,9 +38,24 @@ def is_error_exit(term):
 
 
 def exits(W, body):
-    """[(site, term)] for each definition of the return place."""
+    """[(site, term)] for each definition of the return value.  A return place that is merely a copy of a local with
+    several definitions (`let r = if .. {Ok(a)} else {Err(b)}; r`, or the result of a spliced helper returned as is)
+    is expanded to the definitions of that local, so that each way of producing the result is one exit."""
     pv = W.prov(body)
-    return [(d, pv.def_term(d)) for d in pv.defsites.get(0, [])]
+    out, seen = [], set()
+
+    def expand(l):
+        for d in pv.defsites.get(l, []):
+            node = pv.node_at(d)
+            if d[1] != "T" and node["rv"]["k"] == "use" and node["rv"]["op"]["k"] in ("copy", "move") and not node["rv"]["op"]["p"]["proj"]:
+                src = node["rv"]["op"]["p"]["l"]
+                if src in pv.phi_locals and src > body.arg_count and src not in seen and src not in pv.mutborrow and src not in pv.partial:
+                    seen.add(src)
+                    expand(src)
+                    continue
+            out.append((d, pv.def_term(d)))
+    expand(0)
+    return out
 
 
 def exit_line(body, site):
@@ -542,7 +557,8 @@ def s_txn2(rep, W, rule="S-TXN2"):
             rep.fail(rule, (fn, "returns-Txn"), "success value is %s; expected Ok(Box::new(Txn{con, client_id}))" % P.show(term), where(body))
             continue
         con = unmut(mm["con"])
-        fresh = m(("ok", call(WD.SQLITE + "::SqliteStorage::new_connection", self_only())), con) is not None
+        # (the connection helper of the pinned tree is spliced, see load.SPLICE_BASELINE: the open call is seen here)
+        fresh = m(("ok", call("rusqlite::Connection::open", self_field("db_file"))), con) is not None and con[1][2] in pv.live
         rep.ob(rule, (fn, "fresh-connection"), fresh,
                "the transaction's connection is %s; must be a connection opened by this very call (not cached or shared)" % P.show(con), where(body))
         rep.ob(rule, (fn, "client-id"), m(("param", 2, ANY), mm["cid"]) is not None,
@@ -560,14 +576,6 @@ def s_txn2(rep, W, rule="S-TXN2"):
             rep.ob(rule, (fn, "begin-dominates-ok"), dom, "the Ok return is reached only after BEGIN succeeded", bs.where())
             okb = okb or (same and excl and dom)
         rep.ob(rule, (fn, "begin-present"), bool(begin_sites), "%d BEGIN statement(s) in Storage::txn" % len(begin_sites), where(body))
-    # new_connection opens a new connection every time
-    nc = W.body(WD.SQLITE + "::SqliteStorage::new_connection")
-    for site, term in exits(W, nc):
-        if is_error_exit(term):
-            continue
-        mm = m(pat.adt("Result", "Ok", ("0", ("ok", call("rusqlite::Connection::open", V("path"))))), term)
-        rep.ob(rule, (short_fn(nc), "opens-new"), mm is not None and m(self_field("db_file"), mm["path"]) is not None,
-               "new_connection returns %s; must be Connection::open(self.db_file)" % P.show(term), where(nc))
     # transaction-control statements: BEGIN only in txn, COMMIT only in commit, nothing else anywhere
     commit_body = W.impl_method("sqlite", "commit")
     for i in inst:
@@ -1435,14 +1443,19 @@ def c08(rep, W, rule="C08"):
         ti = txn_term_of(W, body)[0][2]
         cl, gcbb = client_term(W, body, ti)
         atom = ("VARIANT", cl[1])
-        hit = False
-        for site, term in exits(W, body):
-            if m(call(FROM_RESIDUAL, ("err", ANY)), term) is not None:
-                for val in gg.vals_at(site):
-                    if val.get(atom) == frozenset(["err"]):
-                        hit = True
-        nsc = [t for bb, t in body.calls() if t["callee"].get("def") == "core::option::Option::<T>::ok_or"]
-        rep.ob(rule, (short_fn(body), "iv", "absent-client-is-NoSuchClient"), hit, "a missing client record leads to the NoSuchClient error return", where(body))
+        hit, other = False, []
+        for site, rt, val, kind in exit_kinds(W, body, lambda t: "x"):
+            if val.get(atom) != frozenset(["err"]):
+                continue
+            # `?` on ok_or(NoSuchClient), or an explicit `return Err(ServerError::NoSuchClient)` in a let-else / match arm
+            nsc = is_error_exit(rt) and any(x[0] == "agg" and isinstance(x[1], tuple) and x[1][0] == "adt" and x[1][1].endswith("::ServerError")
+                                            and x[1][2] == "NoSuchClient" for x in P.walk(rt))
+            if nsc:
+                hit = True
+            else:
+                other.append(P.show(rt)[:80])
+        rep.ob(rule, (short_fn(body), "iv", "absent-client-is-NoSuchClient"), hit and not other,
+               "a missing client record leads to the NoSuchClient error return%s" % ("; but also to %s" % other[:2] if other else ""), where(body))
 
 
 # =========================================================================== C18
@@ -1805,15 +1818,17 @@ def c11(rep, W, rule="C11"):
     # the tuple handed to the checking closure is (snapshot_version_id column, snapshot column)
     chk = [b for b in W.prog.closures_of(sq) if any(a[0] == "EQ" for a in W.gea(b).atoms)]
     rowc = sel[0].site.closure if sel else None
-    okrow = False
+    rowmap = {}     # field of the row value (tuple index or struct field name) -> column it is read from
     if rowc is not None:
         for site, term in exits(W, rowc):
-            mm = m(pat.adt("Result", "Ok", ("0", pat.tup(V("v"), V("d")))), term)
-            if mm is not None:
-                cv = _col_of(mm["v"])
-                cd = _col_of(mm["d"])
-                okrow = (cv, cd) == ("snapshot_version_id", "snapshot")
-    rep.ob(rule + ".READ", (short_fn(sq), "row-tuple"), okrow, "row closure yields (snapshot_version_id, snapshot)", where(sq))
+            mm = m(pat.adt("Result", "Ok", ("0", V("row"))), term)
+            if mm is not None and mm["row"][0] == "agg":
+                sl = sel[0].stmt["select"] if sel else []
+                for fname_, fv in mm["row"][2]:
+                    c_ = _col_of(fv)
+                    rowmap[fname_] = sl[c_] if isinstance(c_, int) and not isinstance(c_, bool) and 0 <= c_ < len(sl) else c_
+    okrow = sorted(v for v in rowmap.values() if v) == ["snapshot", "snapshot_version_id"] and len(rowmap) == 2
+    rep.ob(rule + ".READ", (short_fn(sq), "row-tuple"), okrow, "row mapper yields the pair (snapshot_version_id, snapshot): %s" % rowmap, where(sq))
     def _req(side):
         """the requested id (method parameter 2), bare or wrapped in Some(..)"""
         return m(("param", 2, ANY), side) is not None or m(pat.adt("Option", "Some", ("0", ("param", 2, ANY))), side) is not None
@@ -1836,7 +1851,9 @@ def c11(rep, W, rule="C11"):
         good = False
         for a in eqs_s:
             other = a[2] if _req(a[1]) else a[1]
-            if val.get(a) == frozenset([True]) and other[0] == "field" and other[2] == "0" and mo["d"] == ("field", other[1], "1"):
+            d_ = mo["d"]
+            if val.get(a) == frozenset([True]) and other[0] == "field" and d_[0] == "field" and d_[1] == other[1] \
+                    and rowmap.get(other[2]) == "snapshot_version_id" and rowmap.get(d_[2]) == "snapshot":
                 good = True
         okchk = okchk and good
     okchk = okchk and nbytes >= 1
@@ -2084,8 +2101,9 @@ from tcss import results as R     # noqa: E402
 PANIC_TABLE = [
     ("inmemory::InMemoryStorage as taskchampion_sync_server_core::storage::Storage>::txn", "Result::<T, E>::expect",
      "Mutex::lock().expect(\"poisoned lock\"): in-memory backend only (not the persistent backend the property is about)"),
-    ("Txn as taskchampion_sync_server_core::storage::StorageTxn>::get_client::{closure#0}", "LocalResult::<T>::unwrap",
-     "Utc.timestamp_opt(ts, 0).unwrap(): ts was written by this server from a valid DateTime (seconds), always in range"),
+    (lambda b, recv: b.unit == WD.SQLITE + "-lib" and recv[0] == "call" and recv[1] == "chrono::offset::TimeZone::timestamp_opt"
+        and len(recv[3]) == 3 and recv[3][2][0] == "const" and recv[3][2][2] == 0, "LocalResult::<T>::unwrap",
+     "Utc.timestamp_opt(ts, 0).unwrap() in the sqlite crate: ts was written by this server from a valid DateTime (seconds), always in range"),
     ("taskchampion_sync_server::ServerArgs::new", "Option::<T>::unwrap",
      "clap guarantees presence (required / default_value); runs at start-up before serving"),
     ("taskchampion_sync_server::command", "Option::<T>::unwrap", "inside clap's arg! macro; runs at start-up before serving"),
@@ -2114,7 +2132,8 @@ def c05_err(rep, W, rule="C05.ERR"):
             npan += 1
             k = d.split("::")[-1]
             pc[k] = pc.get(k, 0) + 1
-            row = [reason for fs, cs, reason in PANIC_TABLE if b.deff.endswith(fs) and d.endswith(cs)]
+            recv = W.prov(b).arg_terms(bb)[0] if b.blocks[bb]["term"]["args"] else ("unknown", "no receiver")
+            row = [reason for fs, cs, reason in PANIC_TABLE if d.endswith(cs) and (fs(b, recv) if callable(fs) else b.deff.endswith(fs))]
             rep.ob("C05.PANIC", (short_fn(b), "%s#%d" % (k, pc[k] - 1)), bool(row),
                    "%s in %s: %s" % (d.split("::", 2)[-1], b.deff, row[0] if row else "NOT in the panic-site table (a failing step would crash the worker instead of producing an error response)"),
                    where(b, bb), nontrivial=False)
@@ -2124,14 +2143,9 @@ def c05_err(rep, W, rule="C05.ERR"):
 
 def c05_map(rep, W, rule="C05.MAP"):
     from rules import http as H
-    r = H.fn_statuses(W, H.SERVER_ERROR_TO_ACTIX, by_variant=True)
-    okm = r is not None and r[1].get("Other") == {500} and r[1].get("NoSuchClient") == {404} and set(r[1]) == {"Other", "NoSuchClient"}
-    rep.ob(rule, ("server_error_to_actix", "variant-table"), okm,
-           "server_error_to_actix maps %s; required NoSuchClient -> 404, Other (storage failure) -> 500" % (r[1] if r else None),
-           where(W.body(H.SERVER_ERROR_TO_ACTIX)))
-    f = H.fn_statuses(W, H.FAILURE_TO_ISE)
-    rep.ob(rule, ("failure_to_ise", "is-500"), f == {500}, "failure_to_ise maps to %s; required 500" % f, where(W.body(H.FAILURE_TO_ISE)))
-    # every handler outcome under Err(Other) is a 5xx (C14 rows) and every propagated storage error in the creation block is a 5xx
+    # The error-mapping helpers of the pinned tree (server_error_to_actix, failure_to_ise) are spliced into the handlers
+    # (load.SPLICE_BASELINE), so the mapping is judged where it takes effect: every handler outcome under Err(Other) is a
+    # 5xx (C14 rows) and every propagated storage error in the creation block is a 5xx
     for module in WD.HANDLER_MODULES:
         body, g, opbb, opterm, outs = H.handler_outcomes(W, module)
         a_err = ("VARIANT", ("err", opterm))
@@ -2228,7 +2242,10 @@ def s_failstop_all(rep, W, rule="S-FAILSTOP"):
     bodies = [W.op(o) for o in WD.OPS] + [W.handler("add_version"), W.body(WD.SERVER_TXN)]
     for backend in ("sqlite", "inmemory"):
         bodies += [W.impl_method(backend, mth) for mth in WD.ALL_METHODS] + [W.impl_storage_txn(backend)]
-    bodies += [W.body(WD.SQLITE + "::SqliteStorage::new"), W.body(WD.SQLITE + "::SqliteStorage::new_connection"), W.body(WD.SQLITE + "::Txn::get_version_impl")]
+    bodies += [W.body(WD.SQLITE + "::SqliteStorage::new")]
+    # private helpers of the sqlite crate that are still units of their own (baseline helpers are spliced; see load.py)
+    bodies += [b for b in W.prog.bodies.values() if b.unit == WD.SQLITE + "-lib" and b.kind in ("Fn", "AssocFn") and "impl_trait" not in b.j
+               and b.key not in [x.key for x in bodies]]
     for b in bodies:
         n += s_failstop(rep, W, b, rule)
     rep.floor(rule, "storage steps with a visible failure edge", n, 15)
